@@ -1059,8 +1059,7 @@ impl SparqlDatabase {
                         this.resolve_query_term(&Self::clean_turtle_term(s_raw), &this.prefixes);
                     let predicate =
                         this.resolve_query_term(&Self::clean_turtle_term(p_raw), &this.prefixes);
-                    let object = this
-                        .resolve_query_term(&Self::clean_turtle_term(&object_part), &this.prefixes);
+                    let object = this.turtle_object_term(&object_part);
 
                     // Emit the main triple
                     if subject.starts_with("<<") || object.starts_with("<<") {
@@ -1093,11 +1092,7 @@ impl SparqlDatabase {
                             &Self::clean_turtle_term(ann_pred),
                             &this.prefixes,
                         ));
-                        let ann_o_id =
-                            this.encode_term_star(&this.resolve_query_term(
-                                &Self::clean_turtle_term(ann_obj),
-                                &this.prefixes,
-                            ));
+                        let ann_o_id = this.encode_term_star(&this.turtle_object_term(ann_obj));
 
                         let ann_triple = Triple {
                             subject: qt_id,
@@ -1259,6 +1254,17 @@ impl SparqlDatabase {
         }
 
         tokens
+    }
+
+    /// Object position of a Turtle statement: a double-quoted literal is stored by its
+    /// decoded lexical value, exactly as the N-Triples / N-Quads readers store it, and
+    /// is never looked at again as an IRI or a prefixed name.
+    fn turtle_object_term(&self, raw: &str) -> String {
+        let raw = raw.trim();
+        if raw.starts_with('"') {
+            return self.clean_ntriples_term(raw);
+        }
+        self.resolve_query_term(&Self::clean_turtle_term(raw), &self.prefixes)
     }
 
     fn clean_turtle_term(term: &str) -> String {
